@@ -462,6 +462,12 @@ func envelopeRequest(q, op string, vars map[string]interface{}, resp *graphql.Re
 			}
 		}
 	}
+	// The *number* of validation errors is not a function of the document: the overlapping-fields check reports
+	// what Go's map iteration lets it meet first. The envelope only depends on "some" vs "none", so when both
+	// this observation and the response agree that validation failed, the response's own count is used.
+	if parseErrs == 0 && valErrs > 0 && resp.Data == nil && len(resp.Errors) > 0 {
+		valErrs = len(resp.Errors)
+	}
 	dataNull := false
 	if resp.Data != nil {
 		b, _ := json.Marshal(*resp.Data)
